@@ -245,6 +245,8 @@ func runProperty(res *Result, prop, tier string, seed uint64, driver, replay str
 	switch prop {
 	case "C19":
 		cases = append(cases, annotCases(g, n)...)
+	case "RC":
+		cases = append(cases, contractCases(g, n*4)...)
 	case "C07":
 		cases = append(cases, hiddenCases(g, n)...)
 	case "C04":
@@ -267,7 +269,9 @@ func runProperty(res *Result, prop, tier string, seed uint64, driver, replay str
 	distinct := map[string]bool{}
 	for _, c := range cases {
 		distinct[c.Cmd.String()] = true
-		res.DepthHist[fmt.Sprint(c.Rec.Depth())]++
+		if c.Rec != nil {
+			res.DepthHist[fmt.Sprint(c.Rec.Depth())]++
+		}
 	}
 	res.Distinct = len(distinct)
 	res.OpCounts = g.opCount
